@@ -650,6 +650,8 @@ static int policy_sched (int n, bool cur_first, int *cands) {
 		return best;
 	}
 	case POL_PRIO: {
+		// optional noise: now and then a uniformly random runnable fibre gets the step (near-adversarial schedules)
+		if (nsim_cfg.policy_noise > 0 && n > 1 && rnd_p (g.rng, (uint32_t) nsim_cfg.policy_noise)) return rnd (g.rng, n);
 		int best = 0;
 		for (int i = 1; i < n; i++) if (g.pol.prio[cands[i]] > g.pol.prio[cands[best]]) best = i;
 		return best;
